@@ -195,27 +195,35 @@ def run(cx):
     # ---------------------------------------------------------------- create_from_indices
     b = cx.fn('geom3::mesh::Mesh::create_from_indices')
     if b:
+        # vertices, the old->new map and the triangles as three comprehensions (chains or push loops alike, in any statement order)
+        from vpa import comp as CMP
+        K = '(call *unique_vertices (param self) (param indices))'
+        IK = f'(itervar (range 0 (len {K})))'
+        II = '(itervar (range 0 (len (param indices))))'
+        news = b.calls('*Mesh::new')
+        ok_list = ok_wind = ok_map = ok_copy = False
         r = cx.retval(b)
-        e = match('(call *Mesh::new (call Iterator::collect (call Iterator::map $k (closure * (param self)))) '
-                  '(call Itertools::collect_vec (call Iterator::map (param indices) (closure * (param self) (call Iterator::collect (call Iterator::map (call Iterator::enumerate $k) _))))) false)', r)
-        cx.ob('EXPR', 'create_from_indices:same-list', e is not None and match('(call *unique_vertices (param self) (param indices))', e['k']) is not None,
+        if len(news) == 1 and match('false', cx.arg(news[0], 2)) is not None:
+            cv = [c for c in CMP.comprehensions(cx, b, cx.arg(news[0], 0)) if c.get('elem') is not None]
+            ct = [c for c in CMP.comprehensions(cx, b, cx.arg(news[0], 1)) if c.get('elem') is not None]
+            if len(cv) == 1 and len(ct) == 1 and not cv[0]['conds'] and not ct[0]['conds'] and cv[0]['src'] is not None and ct[0]['src'] is not None:
+                ok_list = match(K, cv[0]['src']) is not None and match('(param indices)', ct[0]['src']) is not None
+                ok_copy = match(f'(index (call *Mesh::vertices (param self)) (index {K} {IK}))', cv[0]['elem']) is not None or \
+                    match(f'(index (call *Mesh::vertices (param self)) (cast _ (index {K} {IK})))', cv[0]['elem']) is not None
+                T = f'(index (call *Mesh::faces (param self)) (index (param indices) {II}))'
+                e = match(f'(agg array (0 (call HashMap::index $m (index {T} 0))) (1 (call HashMap::index $m (index {T} 1))) (2 (call HashMap::index $m (index {T} 2))))', ct[0]['elem'])
+                ok_wind = e is not None
+                if e is not None:
+                    cm = [c for c in CMP.comprehensions(cx, b, e['m']) if c.get('elem') is not None]
+                    ok_map = len(cm) == 1 and not cm[0]['conds'] and cm[0]['src'] is not None and match(K, cm[0]['src']) is not None and \
+                        (match(f'(agg tuple (0 (index {K} {IK})) (1 {IK}))', cm[0]['elem']) is not None or match(f'(agg tuple (0 (index {K} {IK})) (1 (cast _ {IK})))', cm[0]['elem']) is not None)
+                    ok_list = ok_list and ok_map
+        cx.ob('EXPR', 'create_from_indices:same-list', ok_list,
               'vertices and the old->new index map are both derived from the same unique_vertices(indices) list; triangles follow `indices` in order',
               where=b.file, found=r)
-        for c in cx.facts.closures_of(b.name):
-            rr = cx.retval(c)
-            nm = c.name.split('::')[-1]
-            if rr[0] == 'agg' and rr[1] == 'array':
-                e = match('(agg array (0 (call HashMap::index $m (index $t 0))) (1 (call HashMap::index $m (index $t 1))) (2 (call HashMap::index $m (index $t 2))))', rr)
-                cx.ob('EXPR', 'create_from_indices:winding', e is not None and match('(index (call *Mesh::faces _) (param 2))', e['t']) is not None,
-                      'new triangle = [map[t0], map[t1], map[t2]] of the selected face, in order (winding kept)', where=c.file, found=rr)
-            elif rr[0] == 'agg' and rr[1] == 'tuple':
-                cx.expect('EXPR', 'create_from_indices:map_back', rr, '(agg tuple (0 (field 1 (param 2))) (1 (cast _ (field 0 (param 2)))))'
-                          , 'map_back sends old vertex id -> its position in the unique list', where=c.file) if False else \
-                    cx.ob('EXPR', 'create_from_indices:map_back', match('(agg tuple (0 (field 1 (param 2))) (1 (field 0 (param 2))))', rr) is not None,
-                          'map_back sends old vertex id -> its position in the unique list', where=c.file, found=rr)
-            elif rr[0] == 'index':
-                cx.ob('EXPR', 'create_from_indices:vertex-copy', match('(index (call *Mesh::vertices _) (param 2))', rr) is not None or match('(index (call *Mesh::vertices _) (cast _ (param 2)))', rr) is not None,
-                      'new vertex j is the old vertex with id unique[j] (coordinates copied)', where=c.file, found=rr)
+        cx.ob('EXPR', 'create_from_indices:winding', ok_wind, 'new triangle = [map[t0], map[t1], map[t2]] of the selected face, in order (winding kept)', where=b.file)
+        cx.ob('EXPR', 'create_from_indices:map_back', ok_map, 'map_back sends old vertex id -> its position in the unique list', where=b.file)
+        cx.ob('EXPR', 'create_from_indices:vertex-copy', ok_copy, 'new vertex j is the old vertex with id unique[j] (coordinates copied)', where=b.file)
     b = cx.fn('geom3::mesh::Mesh::unique_vertices')
     if b:
         # the set of vertex ids as a comprehension over the selected faces: three explicit inserts per face, or every element of the face array
